@@ -42,7 +42,8 @@ Step(e) ==
                       /\ (d.f = "length" /\ e.s.coding = "identity") => d.n = e.s.payloadLen,
                    <<"harness and FramingDecision disagree", l, e.id, d>>)
          \* likewise for the coding the harness applied: Coding.tla decides what the client must undo
-         /\ LET sel == Selected(e.s.method, e.s.ce, e.s.te) IN
+         \* (a client built without the compression feature undoes nothing)
+         /\ LET sel == SelectedFor(e.s.compressFeature, e.s.method, e.s.ce, e.s.te) IN
             Assert(e.s.nocheck \/ sel = "unguarded" \/ e.s.framing = "none" \/ sel = e.s.coding,
                    <<"harness and Coding disagree", l, e.id, sel>>)
     [] e.ev = "rel"   -> st' = AfterRel(st, e.k) /\ UNCHANGED <<s, sid, stalled>>
